@@ -25,9 +25,59 @@ var (
 )
 
 // overlayFiles maps virtual paths inside the repository to harness sources under /verif/harness/tree.
+// genOverlay holds files generated at check time (virtual path -> real temp path).
+var genOverlay = map[string]string{}
+
+var genDir string
+
+// genDocCommands parses docs/command.md (rows marked Yes) into a Go source file of package codec.
+func genDocCommands() {
+	b, err := os.ReadFile(filepath.Join(repoRoot, "docs", "command.md"))
+	if err != nil {
+		fatalf(2, "docs/command.md: %v", err)
+	}
+	seen := map[string]bool{}
+	var names []string
+	for _, line := range strings.Split(string(b), "\n") {
+		f := strings.Split(line, "|")
+		if len(f) < 4 {
+			continue
+		}
+		name, sup := strings.ToLower(strings.TrimSpace(f[1])), strings.TrimSpace(f[2])
+		if sup != "Yes" || name == "" || strings.ContainsAny(name, " :-") {
+			continue
+		}
+		if !seen[name] {
+			seen[name] = true
+			names = append(names, name)
+		}
+	}
+	if genDir == "" {
+		genDir, _ = os.MkdirTemp("", "gosym-gen-")
+	}
+	var sb strings.Builder
+	sb.WriteString("//go:build verif\n\npackage codec\n\n// generated from docs/command.md at check time\nvar verifDocYes = []string{")
+	for _, n := range names {
+		fmt.Fprintf(&sb, "%q, ", n)
+	}
+	sb.WriteString("}\n")
+	p := filepath.Join(genDir, "zz_verif_docgen.go")
+	os.WriteFile(p, []byte(sb.String()), 0o644)
+	genOverlay[filepath.Join(repoRoot, "core", "codec", "zz_verif_docgen.go")] = p
+}
+
+func cleanupGen() {
+	if genDir != "" {
+		os.RemoveAll(genDir)
+	}
+}
+
 func overlayFiles() map[string]string {
 	root := filepath.Join(verifHome, "harness", "tree")
 	m := map[string]string{}
+	for k, v := range genOverlay {
+		m[k] = v
+	}
 	filepath.Walk(root, func(p string, info os.FileInfo, err error) error {
 		if err != nil || info.IsDir() || !strings.HasSuffix(p, ".go") {
 			return nil
